@@ -231,7 +231,7 @@ def judgeExtra2 (hNew hOld : HCtx) (op res : Array String) (dump : Option St) : 
   let r0 := res.getD 0 ""
   let s := hOld.cur
   if hOld.tainted then (hNew, []) else
-  if r0 == "timeout" || (r0 == "panic" && name != "consplit") || r0 == "skip" || r0 == "unsupported" || r0 == "dead" then (hNew, []) else
+  if r0 == "timeout" || (r0 == "panic" && name != "consplit" && name != "refine") || r0 == "skip" || r0 == "unsupported" || r0 == "dead" then (hNew, []) else
   let f32 := hOld.scalar == "f32"
   match name with
   | "consplit" =>
@@ -337,6 +337,23 @@ def judgeExtra2 (hNew hOld : HCtx) (op res : Array String) (dump : Option St) : 
       | _, _ => (hNew, [⟨"INTERNAL", "protocol", s!"consplit: {res.toList}"⟩])
     | _, _, _ => (hNew, [⟨"INTERNAL", "protocol", "consplit: args/dump"⟩])
   | "refine" =>
+    if r0 == "panic" then
+      -- as for panicking splits: the panic itself is reported by the generic judge (C07, C20); the
+      -- conditioning of the input is added as a clause of its own - a vertex within rounding
+      -- distance (2^-16 resp. 2^-40 of the extent) of a constraint edge it does not lie on
+      let ext := s.extent []
+      let eps := ext / 2 ^ (if f32 then 16 else 40)
+      let nearConstraint := (List.range (s.nE / 2)).any fun u =>
+        s.isFlag (2 * u) && (List.range s.nV).any fun i =>
+          let a := s.A (2 * u)
+          let b := s.B (2 * u)
+          let v := s.P i
+          let o := orient a b v
+          let nab := dotFrom a b b
+          i != s.org (2 * u) && i != s.org (2 * u + 1) && o != 0 && decide (o * o ≤ eps * eps * nab) &&
+            decide (0 ≤ dotFrom a b v) && decide (dotFrom a b v ≤ nab)
+      (hNew, chk (!nearConstraint) "C20" "refine-panicked-ill-conditioned" (fun _ => "nearConstraint=1"))
+    else
     match dump with
     | none => (hNew, [⟨"INTERNAL", "protocol", "refine: missing dump"⟩])
     | some d =>
